@@ -83,6 +83,13 @@ def freeDirNote (p : Aff Q) (c : List Q) : String :=
   | some d => s!" (the set has a recession direction of zero cost, e.g. {showVec d})"
   | none => ""
 
+/-- membership up to 1e-6 plus what binary64 can resolve at the magnitude of the terms (2⁻⁴⁴ of Σ|aₖxₖ| + |b|: a point
+    with coordinates of size 2³² cannot satisfy a row to 1e-6 in raw residual terms) -/
+def containsScaled (p : Aff Q) (x : List Q) : Bool :=
+  p.rows.all (fun (rb : List Q × Q) =>
+    let mag := ((rb.1.zip x).map (fun q => absQ (q.1 * q.2))).foldl (· + ·) (absQ rb.2)
+    decide (dot rb.1 x - rb.2 ≤ tolQ + mag * mkRat 1 (2 ^ 44)))
+
 /-- judge one implementation answer for objective `c` -/
 def judgeAnswer (what : String) (p : Aff Q) (c : List Q) (ans : String ⊕ LPAnswer Q) : Option Verdict :=
   match ans with
@@ -91,11 +98,13 @@ def judgeAnswer (what : String) (p : Aff Q) (c : List Q) (ans : String ⊕ LPAns
     match a with
     | .error => some (.propfail s!"[C10] {what}: solver error")
     | .infeasible =>
-      match pointInShrunk p.indim [p] with
+      -- the scale of the data: the box [−R, R]ⁿ with R = max(10⁶, 4·max|bᵢ|) (a region does not have to be near the
+      -- origin to be non-empty)
+      match pointInShrunkR (max 1000000 (4 * p.bias.foldl (fun m b => max m (absQ b)) 0)) p.indim [p] with
       | some x => some (.propfail s!"[C10] {what}: reported Infeasible but {showVec x} lies in the set with margin 1e-6")
       | none => none
     | .optimal x =>
-      if x.length != p.indim || !Poly.containsTol tolQ p x then
+      if x.length != p.indim || !containsScaled p x then
         some (.propfail s!"[C10] {what}: returned point {showVec x} is not in the set (tolerance 1e-6)")
       else if certifiedEmpty (shift p margin) then
         some (.propfail s!"[C10] {what}: reported a solution for a set that is empty by more than 1e-6")
@@ -161,7 +170,7 @@ def judgeC10 : P Verdict := do
   -- centre and radius of a largest inscribed ball = optimum of the program
   match exactLP cp cost, csol with
   | .optimal _ v, .optimal z =>
-    if !Poly.containsTol tolQ cp z then return .propfail "[C10] chebyshev: returned centre/radius violates the program"
+    if !containsScaled cp z then return .propfail "[C10] chebyshev: returned centre/radius violates the program"
     if absQ (dotQ cost z - v) > tolQ * (1 + absQ v) then
       return .propfail s!"[C10] chebyshev: returned radius {-(dotQ cost z)} but the largest inscribed ball has radius {-v}"
   | .optimal _ v, .unbounded => return .propfail s!"[C10] chebyshev: solver reports Unbounded but the largest inscribed ball exists{freeDirNote cp cost}: radius {-v}"
